@@ -326,7 +326,7 @@ def run(path):
             fn = getattr(type(args['self']), parts[1]) if 'self' in args else getattr(getattr(mod, parts[0]), parts[1])
         else:
             fn = getattr(mod, parts[0])
-        old_args = copy.deepcopy(args)
+        old_args = {p: from_json(v, builders) for p, v in rp['inputs'].items()}    # independent pre-state copy
         # precondition on the rebuilt input
         ce = CEval(REG, dict(args))
         pre_ok = True
